@@ -287,3 +287,9 @@ func (s *Server) SetFail(id string, fail bool) {
 	defer s.mu.Unlock()
 	s.FailWrite[id] = fail
 }
+
+func (s *Server) Running() bool {
+	s.mu.Lock()
+	defer s.mu.Unlock()
+	return s.running
+}
